@@ -6,6 +6,8 @@
 -/
 import Varlink.Address
 import VarlinkProofs.Lemmas.Address
+import Varlink.Extracted.Code
+import Varlink.ExpectedCode
 namespace Varlink.C19
 open Varlink
 
@@ -277,5 +279,11 @@ example : (bind {} (str "unix:;x")).2 = .refusedParse .emptyUnixPath := by decid
 /-- the inputs that used to be served or to re-bind the previous endpoint -/
 example : (bind {} (str "unixpacket:@x")).2 = .refusedParse .unknownProtocol := by decide
 example : (bind (bind {} (str "unix:/p")).1 (str "foo")).2 = .refusedParse .noProtocol := by decide
+
+/-- **Tie to the source**: the declarations of /repo that this property's model transliterates
+    (`Extracted.codeNames_C19`) have, in the current working tree, exactly the fingerprints of the code the
+    model was validated against. Any change to them breaks this obligation; the check then searches the
+    correspondence streams for an input on which the changed code violates the property. -/
+theorem modelled_code_unchanged : Varlink.Extracted.code_C19 = Varlink.ExpectedCode.code_C19 := by decide
 
 end Varlink.C19
